@@ -386,7 +386,7 @@ theorem shallowOk_of_frag (O : Oracles) (f : FieldDecl) (v : PyVal)
   | oneOf _ => simp [inFrag] at hf
   | allOf _ => simp [inFrag] at hf
   | notF _ => simp [inFrag] at hf
-  | noneF => simp [inFrag] at hf
+  | noneF => simpa [inFrag, shallowOk] using hf
   | anything => simp [inFrag] at hf
 
 theorem rt_optional (O : Oracles) (opts : DeserOpts) (g : FieldDecl) (v j : PyVal)
@@ -400,6 +400,40 @@ theorem rt_optional (O : Oracles) (opts : DeserOpts) (g : FieldDecl) (v j : PyVa
   · simp [ser, serFirst, hs0, hsh, h1]
   · simp [deser, hjn, deserAny, h4]
   · simp [validate, validateAny, vNone, hnn, h5]
+
+/-! ### distinguishable AnyOf options -/
+
+/-- a document accepted by `deserialize_single_field` has one of the JSON types the declaration admits -/
+theorem c05_deser_ok_kind (O : Oracles) (opts : DeserOpts) (f : FieldDecl) (j y : PyVal)
+    (h : deser O opts false f j = .ok y) : acceptsDoc f (docKind j) = true := by
+  cases f with
+  | number o => cases j <;> simp [deser, PyVal.isNone, dValidated, vNumber, PyVal.asNum, docKind, acceptsDoc] at h ⊢
+  | integer o => cases j <;> simp [deser, PyVal.isNone, dValidated, vInteger, docKind, acceptsDoc] at h ⊢
+  | float o => cases j <;> simp [deser, PyVal.isNone, dValidated, vFloat, docKind, acceptsDoc] at h ⊢
+  | string lo hi pat => cases j <;> simp [deser, PyVal.isNone, dValidated, vString, docKind, acceptsDoc] at h ⊢
+  | boolean => cases j <;> simp [deser, PyVal.isNone, dValidated, vBoolean, docKind, acceptsDoc] at h ⊢
+  | enumCls cls names => cases j <;> simp [deser, PyVal.isNone, dEnumCls, dValidated, vEnumCls, docKind, acceptsDoc] at h ⊢
+  | seqAny k sz => cases j <;> simp [deser, PyVal.isNone, dSeq, docSeq, docKind, acceptsDoc] at h ⊢
+  | seqOf k g sz => cases j <;> simp [deser, PyVal.isNone, dSeq, docSeq, docKind, acceptsDoc] at h ⊢
+  | seqPos k gs a sz => cases j <;> simp [deser, PyVal.isNone, dSeq, docSeq, docKind, acceptsDoc] at h ⊢
+  | setAny i sz => cases j <;> simp [deser, PyVal.isNone, dSeq, docSeq, docKind, acceptsDoc] at h ⊢
+  | setOf i g sz => cases j <;> simp [deser, PyVal.isNone, dSeq, docSeq, docKind, acceptsDoc] at h ⊢
+  | tupleOf g u => cases j <;> simp [deser, PyVal.isNone, dSeq, docSeq, docKind, acceptsDoc] at h ⊢
+  | tuplePos gs u => cases j <;> simp [deser, PyVal.isNone, dSeq, docSeq, docKind, acceptsDoc] at h ⊢
+  | mapAny sz => cases j <;> simp [deser, PyVal.isNone, dMap, docKind, acceptsDoc] at h ⊢
+  | mapOf kf vf sz => cases j <;> simp [deser, PyVal.isNone, dMap, docKind, acceptsDoc] at h ⊢
+  | struct c fields defaults =>
+    cases j <;> simp [docKind, acceptsDoc]
+    all_goals
+      simp only [deser, PyVal.isNone, Bool.false_and, Bool.true_and, Bool.false_eq_true, if_false] at h
+      split at h <;> simp [dInline, dClassRef] at h
+  | noneF => cases j <;> simp [deser, PyVal.isNone, docKind, acceptsDoc] at h ⊢
+  | enumLit vals => cases j <;> simp [docKind, acceptsDoc]
+  | anyOf fs => cases j <;> simp [docKind, acceptsDoc]
+  | oneOf fs => cases j <;> simp [docKind, acceptsDoc]
+  | allOf fs => cases j <;> simp [docKind, acceptsDoc]
+  | notF fs => cases j <;> simp [docKind, acceptsDoc]
+  | anything => cases j <;> simp [docKind, acceptsDoc]
 
 /-! ### Set and Map -/
 theorem rt_dedup_of_nodup : ∀ l : List PyVal, pyNodup l = true → dedup l = l
@@ -688,23 +722,49 @@ theorem round_trip (O : Oracles) (opts : DeserOpts) : ∀ (f : FieldDecl) (v : P
     | _ => simp at hv
   | .anyOf fs, v, _, hf => by
     simp only [inFrag] at hf
-    match fs, hf with
-    | [], hf => simp [inFragOpt] at hf
-    | [_], hf => simp [inFragOpt] at hf
-    | _ :: _ :: _ :: _, hf => simp [inFragOpt] at hf
-    | [f, g], hf =>
-      simp only [inFragOpt, and_true_iff] at hf
-      obtain ⟨⟨⟨h0, hnn⟩, hcg⟩, hfg⟩ := hf
-      have hnn' : v.isNone = false := by simpa using hnn
-      have hf0 : f = .noneF := by cases f <;> simp [isNoneDecl] at h0 <;> rfl
-      subst hf0
-      rcases round_trip O opts g v hcg hfg with ⟨j, h1, h2, h3, h4, h5⟩
-      exact rt_optional O opts g v j hnn' (shallowOk_of_frag O g v hcg hfg) h1 h2 h3 h4 h5
+    rcases round_trip_any O opts fs v hf with ⟨j, h1, h2, h3, h4, h5⟩
+    have hjn : (j.isNone && false) = false := by simp
+    exact ⟨j, by simpa [ser] using h1, h2, h3, by simp [deser, h4], by simpa [validate] using h5⟩
   | .oneOf _, _, _, hf => by simp [inFrag] at hf
   | .allOf _, _, _, hf => by simp [inFrag] at hf
   | .notF _, _, _, hf => by simp [inFrag] at hf
-  | .noneF, _, _, hf => by simp [inFrag] at hf
+  | .noneF, v, _, hf => by
+    simp only [inFrag] at hf
+    have hv : v = .none := by cases v <;> simp [PyVal.isNone] at hf; rfl
+    subst hv
+    exact ⟨.none, by simp [ser, PyVal.isNone], rfl, rfl, by simp [deser, PyVal.isNone], by simp [validate, vNone, PyVal.isNone]⟩
   | .anything, _, _, hf => by simp [inFrag] at hf
+
+/-- AnyOf: the first option whose shallow check passes carries the value through all three passes; every
+    option before it is skipped by the serializer (shallow check), by the constructor (validation fails)
+    and by the deserializer (it cannot accept a document of that JSON type) -/
+theorem round_trip_any (O : Oracles) (opts : DeserOpts) : ∀ (fs : List FieldDecl) (v : PyVal),
+    inFragAny O fs v = true →
+    ∃ j, serFirst O fs v = .ok j ∧ isJson j = true ∧ j.isNone = v.isNone
+      ∧ deserAny O opts fs j = .ok v ∧ validateAny O fs v = .ok v
+  | [], _, hf => by simp [inFragAny] at hf
+  | f :: fs, v, hf => by
+    simp only [inFragAny] at hf
+    by_cases hs : shallowOk O f v = true
+    · simp only [hs, if_true, and_true_iff] at hf
+      rcases round_trip O opts f v hf.1 hf.2 with ⟨j, h1, h2, h3, h4, h5⟩
+      exact ⟨j, by simp [serFirst, hs, h1], h2, h3, by simp [deserAny, h4], by simp [validateAny, h5]⟩
+    · have hs' : shallowOk O f v = false := by simpa using hs
+      simp only [hs', Bool.false_eq_true, if_false, and_true_iff] at hf
+      obtain ⟨⟨hval, hdoc⟩, hrest⟩ := hf
+      rcases round_trip_any O opts fs v hrest with ⟨j, g1, g2, g3, g4, g5⟩
+      simp only [g1, Bool.not_eq_true'] at hdoc
+      have hd : ∃ e, deser O opts false f j = .error e := by
+        cases hdj : deser O opts false f j with
+        | error e => exact ⟨e, rfl⟩
+        | ok y => rw [c05_deser_ok_kind O opts f j y hdj] at hdoc; cases hdoc
+      have hv : ∃ e, validate O f v = .error e := by
+        cases hvv : validate O f v with
+        | error e => exact ⟨e, rfl⟩
+        | ok y => simp [hvv, Except.toBool] at hval
+      rcases hd with ⟨e1, hd⟩
+      rcases hv with ⟨e2, hv⟩
+      exact ⟨j, by simp [serFirst, hs', g1], g2, g3, by simp [deserAny, hd, g4], by simp [validateAny, hv, g5]⟩
 
 theorem round_trip_zip (O : Oracles) (opts : DeserOpts) : ∀ (fs : List FieldDecl) (xs : List PyVal),
     xs.length = fs.length → conformsZip O fs xs = true → inFragZip O fs xs = true →
